@@ -1119,6 +1119,24 @@ Proof.
   f_equal. eapply (dbar_agree g I); eauto.
 Qed.
 
+(* ---- the full liveness clause of C14, as a statement (NOT proved; totality_digest above is the part that is) -------- *)
+Definition kind_of (a : Z) : fkind :=
+  if a =? 1 then FSend else if a =? 2 then FEcho else if a =? 3 then FReady else if a =? 4 then FRequest else FAnswer.
+(* every protocol message addressed to an honest party has been processed by it *)
+Definition handed_over (g : gst) : Prop :=
+  forall l q m, In (l, q, m) (gsent g) -> hon q -> 1 <= m_act m <= 5 -> filt (gp g q) (kind_of (m_act m)) l (mtag m) = true.
+(* ... and no party has a deliverable entry left in its deliver buffer *)
+Definition buffers_drained (g : gst) : Prop :=
+  forall q, hon q -> forall tg, In tg (dbuf (gp g q)) -> deliverable (gp g q) tg = false.
+Definition delivery_at_quiescence_statement : Prop :=
+  forall es id, handed_over (run es) -> buffers_drained (run es) ->
+    (forall q, hon q -> cur (gp (run es) q) = id /\ fifo (gp (run es) q) = true) ->
+    (* validity: every broadcast of an honest sender on the channel is delivered by every honest party *)
+    (forall j dst s v, hon j -> In (j, dst, Msg id j s 1 v) (gsent (run es)) ->
+       forall q, hon q -> In (q, (id, j, s), v) (glog (run es))) /\
+    (* totality: a slot delivered by one honest party is delivered by all *)
+    (forall p j s v, In (p, (id, j, s), v) (glog (run es)) -> forall q, hon q -> exists v', In (q, (id, j, s), v') (glog (run es))).
+
 End Bracha.
 
 (* ---- the property statements with a collision-free digest hash ------------------------------------------- *)
@@ -1184,3 +1202,19 @@ Lemma Hodd_inj : forall a b, Hodd a = Hodd b -> a = b.
 Proof. unfold Hodd. intros. lia. Qed.
 Lemma Hodd_nonzero : forall m, Hodd m <> 0.
 Proof. unfold Hodd. intros. lia. Qed.
+
+(* the same run with every r-ready handed over: meets the premises of totality_digest *)
+Definition quiet_events : list event := full_events ++ map (fun p => ERecv p 0 (Msg 0 0 1 3 85)) [0;1;2;3].
+Notation quiet_run := (grun 4 1 0 Hodd (fun _ _ => false) (fun _ => false) quiet_events).
+Definition rq_check (g : gst) : bool :=
+  forallb (fun e : Z * Z * msg => match e with (l, q, m) =>
+             if m_act m =? 3 then filt (gp g q) FReady l (mtag m) else true end) (gsent g).
+Lemma rq_check_sound : forall n byz g, rq_check g = true -> ready_quiescent n byz g.
+Proof.
+  intros n byz g C l q m I A _. unfold rq_check in C. rewrite forallb_forall in C. specialize (C _ I). cbn in C.
+  rewrite A in C. cbn in C. exact C.
+Qed.
+Lemma quiet_run_quiescent : ready_quiescent 4 (fun _ => false) quiet_run.
+Proof. apply rq_check_sound. vm_compute. reflexivity. Qed.
+Lemma quiet_run_dbar : dbar (gp quiet_run 0) (0, 0, 1) = Some 85.
+Proof. vm_compute. reflexivity. Qed.
